@@ -44,6 +44,23 @@ def boot():
     if got != os.path.realpath(repo):
         raise RuntimeError(f"robotpy_ext imported from {got}, expected {repo}")
 
+    # The seams are module attributes that the library looks up at call time (hal.waitForNotifierAlarm, ...,
+    # periodic_filter.time).  A library module that binds one of these functions at import time (`from hal import
+    # waitForNotifierAlarm`) would be out of the simulator's reach: its waits would block in real time and the runs would
+    # look like hangs.  Refuse to run in that case (harness error, exit 2) rather than report anything about such a tree.
+    import time as _time
+    direct = {id(getattr(_hal, n)): "hal." + n for n in ("waitForNotifierAlarm", "initializeNotifier", "cleanNotifier", "updateNotifierAlarm")
+              if hasattr(_hal, n)}
+    direct[id(_time.monotonic)] = "time.monotonic"
+    root = os.path.realpath(repo) + os.sep
+    for mname, mod in list(sys.modules.items()):
+        mfile = getattr(mod, "__file__", None)
+        if mfile and os.path.realpath(mfile).startswith(root):
+            for k, v in list(vars(mod).items()):
+                if id(v) in direct:
+                    raise RuntimeError(f"{mname}.{k} is bound to {direct[id(v)]} at import time: the simulator's seam "
+                                       "(a module attribute looked up at call time) cannot reach it")
+
     hs.pauseTiming()
     hs.restartTiming()  # clock := 0 while paused (before any NT activity)
     if not hs.isTimingPaused() or wpilib.RobotController.getFPGATime() != 0:
